@@ -24,7 +24,7 @@ def static_dir():
         import shutil
         import tempfile
         d = tempfile.mkdtemp(prefix='c19-static-')
-        for name, text in (('one.txt', 'first file\n'), ('two.txt', 'second file, longer\n')):
+        for name, text in (('one.yaml', 'first: file\n'), ('two.txt', 'second file, longer\n')):
             with open(os.path.join(d, name), 'w') as f:
                 f.write(text)
             os.utime(os.path.join(d, name), (1700000000, 1700000000))
@@ -161,7 +161,7 @@ def request_pool():
         ('GET /p escapes', Req('GET', b'/p/%C3%A9%C3%A8%C3%AA%C3%AB/%E2%82%AC%E2%82%AC', b'', [('X-Tag', 't23')])),
         ('GET /sink/x', Req('GET', b'/sink/x', b'q=s', [('X-Tag', 't24')])),
         ('GET /zz/y', Req('GET', b'/zz/y', b'', [('X-Tag', 't25')])),
-        ('GET /static/one', Req('GET', b'/static/one.txt', b'', [('X-Tag', 't26')])),
+        ('GET /static/one', Req('GET', b'/static/one.yaml', b'', [('X-Tag', 't26')])),
         ('GET /static/two', Req('GET', b'/static/two.txt', b'', [('X-Tag', 't27'), ('Range', 'bytes=2-5')])),
         ('GET /nowhere (404)', Req('GET', b'/nowhere', b'', [('X-Tag', 't28')])),
         ('GET refused A', Req('GET', b'/a/3', b'q=r', [('X-Tag', 't29'), ('X-Reject', '1')])),
